@@ -919,11 +919,34 @@ func subst(t *Term, name string, repl *Term) *Term {
 		q := Forall(args[0], args[1])
 		q.hasBound = freeBound(args[1], map[string]bool{args[0].Leaf: true})
 		for _, rd := range t.QReads {
-			if !strings.Contains(rd.key, name) {
-				q.QReads = append(q.QReads, traceRead{rd.key, subst(rd.abs, name, repl)})
-			}
+			q.QReads = append(q.QReads, traceRead{replaceToken(rd.key, name, repl.String()), subst(rd.abs, name, repl)})
 		}
 		return q
 	}
 	return finish(&Term{Op: t.Op, Args: args, W: t.W, Sort: t.Sort})
+}
+
+// replaceToken replaces the symbol name in the rendering s of a term by repl (name is a whole token: not followed by
+// a digit, as in k!6 versus k!60).
+func replaceToken(s, name, repl string) string {
+	if !strings.Contains(s, name) {
+		return s
+	}
+	var sb strings.Builder
+	for {
+		i := strings.Index(s, name)
+		if i < 0 {
+			sb.WriteString(s)
+			return sb.String()
+		}
+		j := i + len(name)
+		if j < len(s) && s[j] >= '0' && s[j] <= '9' {
+			sb.WriteString(s[:j])
+			s = s[j:]
+			continue
+		}
+		sb.WriteString(s[:i])
+		sb.WriteString(repl)
+		s = s[j:]
+	}
 }
